@@ -424,6 +424,9 @@ fn cases(mode: &str) -> Vec<Case> {
             let t = [
                 ("two o five", "2 0 5"), ("o eight", "0 8"), ("nine o", "9 0"), ("o, eight", "o, 8"), ("o! twelve", "o! 12"), ("one two three, o, a b", "1 2 3, o, a b"),
                 ("dial o six please", "dial 0 6 please"), ("o dear", "o dear"), ("my o my", "my o my"), ("five\u{a0}o", "5\u{a0}0"), ("room two o five. Then dial o six", "room 2 0 5. Then dial 0 6"),
+                // 'o' after a word the scanner swallows while a number is pending ("and", "point"): the neighbour is not a number word
+                ("twenty and o boy", "20 and o boy"), ("thirty and o", "30 and o"), ("one point o x", "1 point o x"), ("two hundred and o, dear", "200 and o, dear"),
+                ("twenty and o eight", "20 and 0 8"), ("sixty and o. Five", "60 and o. 5"),
             ];
             for (text, want) in t {
                 let (t, w) = (text.to_string(), want.to_string());
